@@ -181,6 +181,13 @@ M_Start ==   \* run_once won; config selects the parallel path; beneficiary prel
 
 ChildrenDone == \A t \in Threads \ {"main"} : pc[t] = "done"
 
+M_StartSeq ==   \* force_sequential / block below min_parallel_txs: the whole block is replayed in order (fallback.rs)
+  /\ pc["main"] = "m_start"
+  /\ Goto("main", "s_tx") /\ loc' = [loc EXCEPT !["main"].k = 0]
+  /\ UNCHANGED <<block, status, inc, hint, txLock, result, mv, onboard, dep, affects, execIdx, valIdx,
+                 finIdx, comIdx, executed, clock, lowerTs, unconfTs, abort, abortReason, abortTx, slot,
+                 cstate, outcomes, returned>>
+
 M_Join ==    \* joins returned; install_commit_loop_result; post_execute picks the branch
   /\ pc["main"] = "m_join" /\ ChildrenDone
   /\ IF ~abort THEN returned' = "ok" /\ Goto("main", "done") /\ UNCHANGED loc
